@@ -27,6 +27,7 @@ from .symbolic import (
     Variable,
     From,
     _any_of_the_kwargs_is_a_variable,
+    VARIADIC_ARGUMENT_PREFIX,
 )
 from .utils import is_iterable
 from ..utils import recursive_subclasses
@@ -178,14 +179,26 @@ def merge_args_and_kwargs(
     :return: The dict of assigned keyword-arguments.
     """
     starting_index = 1 if ignore_first else 0
+    signature = inspect.signature(function)
     # a call that the function itself would reject (too many positional arguments, an argument given twice, an unknown
     # keyword) is rejected when it is written symbolically as well
-    inspect.signature(function).bind(*([None] * starting_index), *args, **kwargs)
-    all_kwargs = {
-        name: arg
-        for name, arg in zip(
-            get_function_argument_names(function)[starting_index:], args
-        )
-    }
+    signature.bind(*([None] * starting_index), *args, **kwargs)
+    parameters = list(signature.parameters.values())[starting_index:]
+    positional_names = [
+        p.name
+        for p in parameters
+        if p.kind in (p.POSITIONAL_ONLY, p.POSITIONAL_OR_KEYWORD)
+    ]
+    variadic_name = next(
+        (p.name for p in parameters if p.kind is p.VAR_POSITIONAL), None
+    )
+    all_kwargs = {}
+    for position, arg in enumerate(args):
+        if position < len(positional_names):
+            all_kwargs[positional_names[position]] = arg
+        else:
+            # an element of *args, see call_with_merged_arguments
+            index = position - len(positional_names)
+            all_kwargs[f"{VARIADIC_ARGUMENT_PREFIX}{variadic_name}[{index}]"] = arg
     all_kwargs.update(kwargs)
     return all_kwargs
